@@ -84,9 +84,8 @@ def run(eng, rep, tier):
               "unit productions are excluded from the base set",
               "the base set of eliminate_unit_productions keeps unit productions", None, site=site_of(prog, fi, fi.node))
     fu = prog.method("CFG", "get_unit_pairs")
-    okw, why, _ = is_worklist_closure(fu.node)
-    ob.decide("R10a", "C09.2", fu, "unit-pair-closure", okw, "unit pairs are closed by a visited-set worklist",
-              "get_unit_pairs is not a closure worklist: " + why, None, site=site_of(prog, fu, fu.node))
+    ob.worklist("C09.2", fu, "unit-pair-closure", "unit pairs are closed by a visited-set worklist",
+                "get_unit_pairs is not a closure worklist")
     su = interp.run_entry(fu, CFG)
     ob.decide("R1", "C09.2", fu, "unit-pairs-reflexive-and-from-productions",
               ("self", ("_variables",)) in deps_of(su.ret) and ("self", ("_productions",)) in deps_of(su.ret),
